@@ -3896,7 +3896,10 @@ func (p *Parser) parseChangeStreamFor() ast.ChangeStreamFor {
 
 		if p.Token.Kind == "(" {
 			p.nextToken()
-			forTable.Columns = parseCommaSeparatedList(p, p.parseIdent)
+			// The column list can be empty: "FOR t()" watches only the primary key columns.
+			if p.Token.Kind != ")" {
+				forTable.Columns = parseCommaSeparatedList(p, p.parseIdent)
+			}
 			forTable.Rparen = p.expect(")").Pos
 		}
 
